@@ -53,6 +53,14 @@ for i, (p, sha, rule, what) in enumerate(rows, 1):
 head = open("design/DESIGN.head.md").read()
 tail = open("design/DESIGN.tail.md").read().replace("@@FIXTABLE@@", ft).replace("@@SEEDTABLE@@", st)
 tail = tail.replace("@@SEEDCOUNTS@@", "%d of the %d seeded changes are reported by at least one check; %d by the check of their own property." % (caught, tot, own))
+import importlib.util
+def ncases(path):
+    sp = importlib.util.spec_from_file_location("x", path); mo = importlib.util.module_from_spec(sp); sp.loader.exec_module(mo)
+    return len(mo.CASES)
+nmut, nben = ncases("selftest/mutants.py"), ncases("selftest/benign.py")
+def fill(t):
+    return t.replace("@@NFIX@@", str(len(rows))).replace("@@NMUT@@", str(nmut)).replace("@@NBEN@@", str(nben)).replace("@@NCASES@@", str(len(rows) + nmut + nben + tot))
+head, tail = fill(head), fill(tail)
 open("DESIGN.md", "w").write(head + "\n--------------------------------------------------------------------------\n\n" + sec5 + "\n" + tail)
 import shutil
 shutil.rmtree(tmp, ignore_errors=True)
